@@ -360,14 +360,13 @@ func c11FileBody(f map[string]any) []byte {
 	if jstr(f, "view") == "bad" {
 		return []byte("{\"openapi\": ")
 	}
+	// no mutation here: Run executes concurrently with the marshalling of the case for the driver
 	root, _ := f["root"].(map[string]any)
-	c11Normalize(root)
 	obj, _ := c11Render(root).(map[string]any)
 	if defs, ok := f["defs"].(map[string]any); ok && len(defs) > 0 {
 		dm := map[string]any{}
 		for k, v := range defs {
 			de, _ := v.(map[string]any)
-			c11Normalize(de)
 			dm[k] = c11Render(de)
 		}
 		obj["definitions"] = dm
@@ -602,7 +601,8 @@ func c11Slots(kind string) []c11Slot {
 	case "header":
 		return []c11Slot{{[]string{"schema"}, "schema"}}
 	case "parameter":
-		return []c11Slot{{[]string{"schema"}, "schema"}}
+		// a parameter has either a schema or a content map (both is a load error): the callers pick one
+		return []c11Slot{{[]string{"schema"}, "schema"}, {[]string{"content", "application/json", "schema"}, "schema"}}
 	case "requestBody":
 		return []c11Slot{{[]string{"content", "application/json", "examples", "e1"}, "example"}, {[]string{"content", "application/json", "schema"}, "schema"},
 			{[]string{"content", "text/plain", "schema"}, "schema"}}
@@ -666,7 +666,9 @@ func (u *c11Uni) refText(kind string, base string, depth int) string {
 		case 1:
 			return "#bad"
 		case 2:
-			return "#/definitions/D"
+			if kind == "schema" { // the definitions of element files are schemas (the raw drill converts to the expected kind)
+				return "#/definitions/D"
+			}
 		case 3:
 			k2 := hx.Pick(r, c11Kinds[:9])
 			return "#/components/" + c11KindColl[k2] + "/A"
@@ -676,7 +678,7 @@ func (u *c11Uni) refText(kind string, base string, depth int) string {
 		return "#/paths/" + hx.Pick(r, []string{"~1x", "~1y", "~1z"})
 	case r.Chance(45): // whole file
 		name := c11ElemName[kind]
-		if r.Chance(8) {
+		if r.Chance(8) && kind != "callback" { // a document does not unmarshal as a callback (a map of path items)
 			name = hx.Pick(r, []string{"root.json", "d.json", "bad.json", "missing.json"})
 		}
 		t := dir + name
@@ -693,10 +695,6 @@ func (u *c11Uni) refText(kind string, base string, depth int) string {
 		switch r.Intn(12) {
 		case 0:
 			return t + "#/components/" + c11KindColl[kind] + "/Nope"
-		case 2:
-			if kind == "schema" {
-				return t + "#/components/schemas/A/properties/a"
-			}
 		case 3:
 			if kind == "response" {
 				return t + "#/paths/~1x/get/responses/200"
@@ -728,6 +726,10 @@ func (u *c11Uni) el(kind string, base string, depth int, pref int) c11El {
 	}
 	if depth >= 3 {
 		p = 20
+	}
+	if kind == "parameter" {
+		i := r.Intn(2)
+		slots = slots[i : i+1]
 	}
 	for _, s := range slots {
 		if r.Chance(p) {
@@ -778,7 +780,11 @@ func (u *c11Uni) docOrElem(view string, loc string, depth int) c11El {
 	if view != "doc" {
 		// the element itself is inline; its sub-elements may be references
 		e := c11NewEl(view, "")
-		for _, s := range c11Slots(view) {
+		sl := c11Slots(view)
+		if view == "parameter" {
+			sl = sl[:1]
+		}
+		for _, s := range sl {
 			if u.r.Chance(50) {
 				c11AddKid(e, s.slot, u.el(s.kind, loc, depth+1, pref+15))
 			}
@@ -841,6 +847,9 @@ func c11Skeleton(kind string, depth int) c11El {
 		if kind == "callback" && s.slot[0] == "evt2" {
 			continue
 		}
+		if kind == "parameter" && (s.slot[0] == "content") != (depth%2 == 1) {
+			continue // component parameters carry a content map, path-level ones a schema
+		}
 		c11AddKid(e, s.slot, c11Skeleton(s.kind, depth+1))
 	}
 	return e
@@ -876,6 +885,18 @@ func c11NestedName(kind string) string {
 		return ""
 	}
 	return c11ElemName[sl[0].kind]
+}
+
+// c11PruneTo keeps the elements on the way to position p and their siblings (as leaves): the exhaustive cases
+// stay small; sibling interplay is the random stream's job.
+func c11PruneTo(e c11El, p []int) {
+	for i, k := range jlist(e["kids"]) {
+		if len(p) > 0 && i == p[0] {
+			c11PruneTo(elOf(k), p[1:])
+		} else {
+			elOf(k)["kids"] = []any{}
+		}
+	}
 }
 
 func c11SimpleElemFile(loc, kind string, withRef bool) map[string]any {
@@ -915,7 +936,114 @@ type c11Spelling struct {
 	fragment bool
 }
 
+// ---- hand-made shapes (also written to corpus/C11 with C11_WRITE_CORPUS=<dir>)
+
+func c11Doc(loc string, kids ...[2]any) map[string]any {
+	d := c11NewEl("doc", "")
+	for _, k := range kids {
+		c11AddKid(d, k[0].([]string), k[1].(c11El))
+	}
+	return map[string]any{"loc": loc, "view": "doc", "root": d}
+}
+func c11Elem(loc, kind string, kids ...[2]any) map[string]any {
+	e := c11NewEl(kind, "")
+	for _, k := range kids {
+		c11AddKid(e, k[0].([]string), k[1].(c11El))
+	}
+	return map[string]any{"loc": loc, "view": kind, "root": e}
+}
+func c11With(e c11El, kids ...[2]any) c11El {
+	for _, k := range kids {
+		c11AddKid(e, k[0].([]string), k[1].(c11El))
+	}
+	return e
+}
+func kid(el c11El, slot ...string) [2]any { return [2]any{slot, el} }
+
+func c11Handmade() map[string]hx.Case {
+	mk := func(allowed bool, entry string, files ...any) hx.Case {
+		root := files[0].(map[string]any)
+		g := map[string]any{"allowed": allowed, "entry": entry, "root": jstr(root, "loc"), "rootInStore": true, "files": files}
+		return c11Derive(hx.Case{"g": g})
+	}
+	out := map[string]hx.Case{}
+	// F-C11-1 (a): '#'-reference of an element file finds a root component and resolves it against the element's location
+	out["foreign_base_elem_hash_ref"] = mk(true, "file",
+		c11Doc("/r/a/root.json", kid(c11NewEl("parameter", "../b/p.json"), "components", "parameters", "P"), kid(c11NewEl("schema", "y.json"), "components", "schemas", "X")),
+		c11Elem("/r/b/p.json", "parameter", kid(c11NewEl("schema", "#/components/schemas/X"), "schema")),
+		c11Elem("/r/a/y.json", "schema"), c11Elem("/r/b/y.json", "schema"))
+	// F-C11-1 (b): the raw re-read fallback finds the fragment in the REFERRING document
+	out["foreign_base_raw_fallback"] = mk(true, "file",
+		c11Doc("/r/a/root.json",
+			kid(c11With(c11NewEl("callback", ""), kid(c11NewEl("pathItem", "../b/d.json#/paths/~1x"), "evt")), "components", "callbacks", "C"),
+			kid(c11With(c11NewEl("pathItem", ""), kid(c11NewEl("parameter", "p.json"), "parameters", "0")), "paths", "/x")),
+		c11Doc("/r/b/d.json"), c11Elem("/r/a/p.json", "parameter"), c11Elem("/r/b/p.json", "parameter"))
+	// regression: same path as the root on another host, switch off — must not be fetched
+	for _, entry := range []string{"file", "dataWithPath"} {
+		out["same_path_other_host_off_"+entry] = mk(false, entry,
+			c11Doc("/r/a/root.json", kid(c11NewEl("schema", "//h.example/r/a/root.json#/components/schemas/A"), "components", "schemas", "S")),
+			c11Doc("//h.example/r/a/root.json", kid(c11NewEl("schema", ""), "components", "schemas", "A")))
+	}
+	out["http_ref_off"] = mk(false, "file",
+		c11Doc("/r/a/root.json", kid(c11With(c11NewEl("response", ""), kid(c11NewEl("header", "http://h.example/r/a/h.json"), "headers", "h1")), "components", "responses", "R")),
+		c11Elem("http://h.example/r/a/h.json", "header"))
+	// regression: a whole-file callback in another directory — its nested relative reference resolves against the callback file
+	out["callback_whole_file_other_dir"] = mk(true, "file",
+		c11Doc("/r/a/root.json", kid(c11NewEl("callback", "../b/cb.json"), "components", "callbacks", "C")),
+		c11Elem("/r/b/cb.json", "callback", kid(c11NewEl("pathItem", "pi.json"), "evt")),
+		c11Elem("/r/b/pi.json", "pathItem"))
+	// the same for every kind whose resolver walks sub-elements
+	for _, k := range []string{"header", "parameter", "requestBody", "response", "schema", "pathItem"} {
+		sl := c11Slots(k)[0]
+		slot := []string{"components", c11KindColl[k], "C"}
+		if k == "pathItem" {
+			slot = []string{"paths", "/p"}
+		}
+		out["whole_file_other_dir_"+k] = mk(true, "file",
+			c11Doc("/r/a/root.json", [2]any{slot, c11NewEl(k, "../b/"+c11ElemName[k])}),
+			c11Elem("/r/b/"+c11ElemName[k], k, [2]any{sl.slot, c11NewEl(sl.kind, "sub/"+c11ElemName[sl.kind])}),
+			c11Elem("/r/b/sub/"+c11ElemName[sl.kind], sl.kind))
+	}
+	// chain root → d.json#A → s.json; cycle across two documents; unwalked position
+	out["chain_fragment_then_whole"] = mk(true, "file",
+		c11Doc("/r/a/root.json", kid(c11NewEl("schema", "../b/d.json#/components/schemas/A"), "components", "schemas", "S")),
+		c11Doc("/r/b/d.json", kid(c11With(c11NewEl("schema", ""), kid(c11NewEl("schema", "s.json"), "items")), "components", "schemas", "A")),
+		c11Elem("/r/b/s.json", "schema"))
+	out["cycle_two_documents"] = mk(true, "file",
+		c11Doc("/r/a/root.json", kid(c11With(c11NewEl("schema", ""), kid(c11NewEl("schema", "d.json#/components/schemas/A"), "properties", "a")), "components", "schemas", "A")),
+		c11Doc("/r/a/d.json", kid(c11With(c11NewEl("schema", ""), kid(c11NewEl("schema", "root.json#/components/schemas/A"), "properties", "a")), "components", "schemas", "A")))
+	for _, allowed := range []bool{false, true} {
+		rf := c11Doc("/r/a/root.json", kid(c11NewEl("schema", ""), "components", "schemas", "A"))
+		rf["dead"] = []any{"ln.json", "http://h.example/r/a/ln.json"}
+		out[fmt.Sprintf("unwalked_components_links_%v", allowed)] = mk(allowed, "file", rf, c11Elem("/r/a/ln.json", "link"))
+	}
+	// a deep fragment through inline elements (typed drill through struct fields, maps, slices)
+	out["deep_fragment_inline"] = mk(true, "file",
+		c11Doc("/r/a/root.json", kid(c11NewEl("schema", "d.json#/components/schemas/A/properties/a/allOf/0"), "components", "schemas", "S"),
+			kid(c11NewEl("response", "d.json#/paths/~1x/get/responses/200"), "components", "responses", "R")),
+		c11Doc("/r/a/d.json",
+			kid(c11With(c11NewEl("schema", ""), kid(c11With(c11NewEl("schema", ""), kid(c11NewEl("schema", "s.json"), "allOf", "0")), "properties", "a")), "components", "schemas", "A"),
+			kid(c11With(c11NewEl("pathItem", ""), kid(c11With(c11NewEl("response", ""), kid(c11NewEl("header", "h.json"), "headers", "h1")), "get", "responses", "200")), "paths", "/x")),
+		c11Elem("/r/a/s.json", "schema"), c11Elem("/r/a/h.json", "header"))
+	out["dangling_hash_ref_reread_off"] = mk(false, "file",
+		c11Doc("/r/a/root.json", kid(c11NewEl("schema", "#/components/schemas/Nope"), "components", "schemas", "A")))
+	return out
+}
+
 func genC11(ctx *hx.Ctx, emit func(hx.Case)) {
+	hm := c11Handmade()
+	hnames := []string{}
+	for k := range hm {
+		hnames = append(hnames, k)
+	}
+	sort.Strings(hnames)
+	for _, k := range hnames {
+		if dir := os.Getenv("C11_WRITE_CORPUS"); dir != "" {
+			b, _ := json.MarshalIndent(hm[k], "", " ")
+			os.WriteFile(dir+"/"+k+".json", b, 0o644)
+		}
+		emit(hm[k])
+	}
 	skel := c11Skeleton("doc", 0)
 	var pos [][]int
 	c11Positions(skel, nil, &pos)
@@ -964,6 +1092,7 @@ func genC11(ctx *hx.Ctx, emit func(hx.Case)) {
 					tgt := c11At(root, p)
 					tgt["ref"] = text
 					tgt["kids"] = []any{}
+					c11PruneTo(root, p)
 					rf := map[string]any{"loc": rootLoc, "view": "doc", "root": root}
 					all := append([]any{rf}, files...)
 					// the nested whole-file reference of the target, next to it
@@ -979,7 +1108,7 @@ func genC11(ctx *hx.Ctx, emit func(hx.Case)) {
 	// random stream
 	n := 2500
 	if ctx.Thorough() {
-		n = 40000
+		n = 30000
 	}
 	for i := 0; i < n; i++ {
 		emit(c11RandomCase(ctx.Rng))
